@@ -46,7 +46,7 @@ CLAIM = dict(
     note="OBSERVED ONLY: exp (GaussianKernel), np.linalg.inv, float32 rounding and fastmath on non-dyadic data (reproduction 1e-4, numba vs "
     "plain sum 1e-5, on fresh objects and along update sequences incl. AdvancedKernelInterpolation); the kernel state machine's weights "
     "are compared with inv(K(key)) @ values for the key the model predicts (1e-6 cond). Not modelled: 3-D label volumes; Image inputs "
-    "other than for ClipModel (behaviour recorded in the evidence); states after an exception; cv2 index rule beyond n,N = 64 (theorems "
+    "other than for ClipModel (behaviour recorded in the evidence); states after a raising update (recorded as observations); cv2 index rule beyond n,N = 64 (theorems "
     "hold for any rounding table of the stated form, the tie stops at 64). Known finding: KernelInterpolation.update_model_parameters "
     "with the kernel dof / default dofs.",
     technique="Lean 4 proof + G1 tabulation + differential correspondence + property oracle",
@@ -171,7 +171,7 @@ class Case:
             else:
                 r = call(target.update_model_parameters, arr, None if dofs is None and kind == "all" else ("all" if kind == "all" else dofs[0][1]))
             if isinstance(r, Raised):
-                return repr(r)
+                return repr(r)  # the state after a raising update is not part of C14: only the error class is compared
         out = call(target, sig.copy())
         if isinstance(out, Raised):
             return repr(out)
@@ -195,7 +195,8 @@ def gen_models(rng, n, L, near_one=True):
             band = [F(1) + F(1, 2**20), F(1) - F(1, 2**17)] if near_one else []
             ms.append(("scaling", rng.choice([dy(rng), dy(rng), F(1), F(1) + F(1, 2**16)] + band)))
         elif k == "linear":
-            ms.append(("linear", dy(rng), dy(rng)))
+            # unit slope with a non-zero offset is a forced value (a shortcut for scaling == 1 must still add the offset out of place)
+            ms.append(("linear", Fraction(1) if rng.random() < 0.2 else dy(rng), dy(rng) if rng.random() < 0.8 else Fraction(rng.choice([1, -3, 5]), 4)))
         else:
             ms.append(("het", L, [dy(rng) for _ in range(L)], [dy(rng) for _ in range(L)]))
     return ms
@@ -593,7 +594,7 @@ def oracle_models(ctx, d):
     for dt in ("u8", "u16", "i64", "f32", "f64"):
         for _ in range(ctx.pick(4, 30)):
             L = rng.randint(1, 4)
-            sc, of = [dy(rng) for _ in range(L)], [dy(rng) for _ in range(L)]
+            sc, of = [Fraction(1) if rng.random() < 0.3 else dy(rng) for _ in range(L)], [dy(rng) for _ in range(L)]
             c = mk_case([("het", L, sc, of)], None, L, dt)
             lab, sig = c.arrays()
             ctx.count(("het-vs-hom", dt, tuple(sc), tuple(of)))
@@ -603,7 +604,12 @@ def oracle_models(ctx, d):
                 bad = {"observed": repr(out)}
             else:
                 for li, l in enumerate(np.unique(lab)):
-                    hom = d.LinearModel(scaling=float(sc[li]), offset=float(of[li]))(sig.copy())
+                    hom = call(d.LinearModel(scaling=float(sc[li]), offset=float(of[li])), sig.copy())
+                    if isinstance(hom, Raised):
+                        ctx.fail(f"C14:LinearModel.__call__(dtype={dt}):raises", f"LinearModel(scaling={float(sc[li])}, offset={float(of[li])}) raises {hom!r} on a {dt} signal",
+                                 {"line": Case("single", [("linear", sc[li], of[li])], None, c.pix, c.label_values, c.shape, dt).line(), "observed": repr(hom), "exception": str(hom.exc)[:160]})
+                        bad = None
+                        break
                     reg = lab == l
                     if not np.array_equal(np.asarray(out)[reg], hom[reg]):
                         k = np.argwhere(reg & (np.asarray(out) != hom))[0]
@@ -1047,7 +1053,7 @@ def kernel_state_correspondence(ctx, d):
                 diffs.append((line, g[:120], resp))
             continue
         head, _, w = g.rpartition(" | ")
-        if head.strip() != resp:
+        if head.strip() != resp.strip():
             diffs.append((line, g[:160], resp))
             continue
         # the model says which inverse was used: weights must be inv(K(key kernel, key supports)) @ vals
@@ -1242,7 +1248,9 @@ def run_label_sequence(d, lab, shapes, sc, of, sigs=None):
         if tuple(shp) == laba.shape:
             want = np.zeros(shp)
             for li, l in enumerate(uniq):
-                hom = d.LinearModel(scaling=float(sc[li]), offset=float(of[li]))(sig)
+                hom = call(d.LinearModel(scaling=float(sc[li]), offset=float(of[li])), sig.copy())
+                if isinstance(hom, Raised):
+                    return {"step": i, "shape": list(shp), "what": f"the homogeneous LinearModel of label {int(l)} raises {hom!r}"}
                 want[laba == l] = hom[laba == l]
             if not np.array_equal(out, want):
                 bad = np.argwhere(np.asarray(out) != want)[0].tolist()
@@ -1317,6 +1325,195 @@ def observe_image_inputs(ctx, d):
             rep[name] = "returns " + type(out).__name__ + (" with OTHER values than for the array" if want is not None else "")
     ctx.cov["image_inputs_observed"] = rep
     ctx.notes.append("Image inputs are in the API of ClipModel only (checked by the oracle); for the other classes the behaviour is recorded under image_inputs_observed, not asserted")
+
+
+# ---------------------------------------------------------------------------
+# failed updates: a call of update_model_parameters / update that raises must leave the object usable with its OLD state
+
+
+def extract_update_paths():
+    """G2 (static view, recorded in the evidence): for every update method the order of `self.x = ...` assignments and of the
+    statements that can raise (assert / raise / subscripts of `parameters` / calls of other methods), and whether the method puts
+    the previous state back when an exception passes through (try ... except: restore; raise)."""
+    import ast
+
+    from ..lib.core import REPO
+
+    targets = {"signals/models/clipmodel.py": ["ClipModel"], "signals/models/linearmodel.py": ["ScalingModel", "LinearModel", "HeterogeneousLinearModel"],
+               "signals/models/combinedmodel.py": ["CombinedModel"], "signals/models/kernelinterpolation.py": ["KernelInterpolation"]}
+    out = {}
+    for rel, classes in targets.items():
+        try:
+            tree = ast.parse((REPO / "src" / "darsia" / rel).read_text())
+        except (OSError, SyntaxError) as e:
+            out[rel] = f"unreadable: {e}"
+            continue
+        for cls in [n for n in tree.body if isinstance(n, ast.ClassDef) and n.name in classes]:
+            for fn in [n for n in cls.body if isinstance(n, ast.FunctionDef) and n.name in ("update", "update_model_parameters", "update_kernel", "_compatibility", "setup_kernel_problem", "update_interpolation")]:
+                events, restores = [], False
+                for node in ast.walk(fn):
+                    if isinstance(node, ast.Try) and any(isinstance(x, ast.Raise) and x.exc is None for h in node.handlers for x in ast.walk(h)):
+                        restores = True
+                for node in sorted((n for n in ast.walk(fn) if hasattr(n, "lineno")), key=lambda n: (n.lineno, n.col_offset)):
+                    if isinstance(node, (ast.Assign, ast.AugAssign)):
+                        for t in (node.targets if isinstance(node, ast.Assign) else [node.target]):
+                            for a in ast.walk(t):
+                                if isinstance(a, ast.Attribute) and isinstance(a.value, ast.Name) and a.value.id == "self" and isinstance(a.ctx, ast.Store):
+                                    events.append(f"assign self.{a.attr}")
+                    elif isinstance(node, ast.Delete):
+                        events.append("delete attribute")
+                    elif isinstance(node, ast.Assert):
+                        events.append("assert")
+                    elif isinstance(node, ast.Raise) and node.exc is not None:
+                        events.append("raise")
+                    elif isinstance(node, ast.Call) and isinstance(node.func, ast.Attribute) and isinstance(node.func.value, ast.Name) and node.func.value.id in ("self", "model"):
+                        events.append(f"call {node.func.attr}")
+                    elif isinstance(node, ast.Subscript) and isinstance(node.value, ast.Name) and node.value.id == "parameters" and not isinstance(node.slice, ast.Slice):
+                        events.append("index parameters")
+                first_risk = next((i for i, e in enumerate(events) if not e.startswith("assign")), len(events))
+                assigns_before_risk = any(e.startswith("assign") for e in events[:first_risk]) and first_risk < len(events)
+                out[f"{cls.name}.{fn.name}"] = {"events": events, "restores_on_exception": restores,
+                                                "assigns_before_a_statement_that_can_raise": assigns_before_risk}
+    return out
+
+
+def oracle_failed_updates(ctx, d):
+    """OBSERVATION ONLY (exception safety is outside C14's statement): what a raising update leaves behind is recorded in the
+    evidence under failed_update_observations; nothing here can fail the check."""
+    obs = ctx.cov.setdefault("failed_update_observations", {})
+
+    class _Obs:
+        @staticmethod
+        def fail(sig_, what, replay):
+            obs.setdefault(sig_.split(":", 1)[1], what)
+
+        count = staticmethod(ctx.count)
+        rng = ctx.rng
+
+    ctx = _Obs
+    rng = ctx.rng
+    vals = [Fraction(k, 4) for k in range(-12, 13)]
+    L = 2
+    pix = [(i % L, v) for i, v in enumerate(vals)]
+    proto = {"clip": ("clip", F(-1), F(2)), "scaling": ("scaling", F(3)), "linear": ("linear", F(2), F(1)), "het": ("het", 2, [F(2), F(3)], [F(1), F(-1)])}
+    c0 = Case("comb", [proto["clip"]], None, pix, [5, 10], (5, 5))
+    lab, sig = c0.arrays()
+
+    def attempts(kind):
+        n = n_params(proto[kind])
+        yield "too few parameters", np.arange(1.0, n), None              # one short
+        yield "empty parameter vector", np.array([]), None
+        yield "unknown dof", np.arange(1.0, 9.0), ["no_such_dof"]
+        yield "dof of another model", np.arange(1.0, 9.0), ["min_value"] if kind not in ("clip",) else ["scaling"]
+        if kind == "het":
+            yield "too few for one dof", np.arange(1.0, 2.0), ["offset"]
+
+    # (A) single models
+    for kind in KINDS:
+        for what, params, dofs in attempts(kind):
+            m = build(d, proto[kind], lab)
+            before = call(m, sig.copy())
+            r = call(m.update_model_parameters, params) if dofs is None else call(m.update_model_parameters, params, dofs)
+            ctx.count(("failed-update", kind, what))
+            if not isinstance(r, Raised):
+                continue  # the update was accepted (e.g. the label-wise model ignores unknown dofs): nothing to check here
+            after = call(m, sig.copy())
+            if isinstance(after, Raised) or isinstance(before, Raised) or not np.array_equal(after, before):
+                ctx.fail(f"C14:{CLASS_OF[kind]}.update_model_parameters:failed-update-changes-state",
+                         f"{CLASS_OF[kind]}.update_model_parameters ({what}) raised {r!r}, but afterwards the model no longer behaves as before the call",
+                         {"failed_update": {"kind": kind, "parameters": params.tolist(), "dofs": dofs}, "raised": repr(r),
+                          "after": repr(after) if isinstance(after, Raised) else np.asarray(after).ravel().tolist()[:6],
+                          "before": None if isinstance(before, Raised) else np.asarray(before).ravel().tolist()[:6]})
+    # (B) CombinedModel: a failure in a later sub-model
+    for kinds in (["clip", "linear"], ["het", "clip"], ["scaling", "het", "linear"]):
+        models = [proto[k] for k in kinds]
+        need = sum(n_params(m) for m in models)
+        for what, params, dofs in (("vector one short", np.arange(1.0, need), None),
+                                   ("second entry has an unknown dof", np.arange(1.0, 9.0), [(0, KIND_DOFS[kinds[0]][:1]), (1, ["no_such_dof"])])):
+            comb = d.CombinedModel([build(d, m, lab) for m in models])
+            before = call(comb, sig.copy())
+            r = call(comb.update_model_parameters, params) if dofs is None else call(comb.update_model_parameters, params, dofs)
+            ctx.count(("failed-update-comb", tuple(kinds), what))
+            if not isinstance(r, Raised):
+                continue
+            after = call(comb, sig.copy())
+            if isinstance(after, Raised) or not np.array_equal(after, before):
+                ctx.fail("C14:CombinedModel.update_model_parameters:failed-update-partially-applied",
+                         f"CombinedModel.update_model_parameters ({what}) raised {r!r} after it had already updated the earlier sub-models",
+                         {"failed_update": {"models": [tok_model(m) for m in models], "parameters": params.tolist(), "dofs": dofs}, "raised": repr(r)})
+    # (C) KernelInterpolation.update
+    nrng = np.random.default_rng(rng.randrange(2**31))
+    probe = nrng.uniform(0, 3, (5, 3)).astype(np.float32)
+    for kname in ("GaussianKernel", "LinearKernel"):
+        S = gen_supports(nrng, "*", 3)
+        B = gen_supports(nrng, "*", 3)
+        for what, kw in (("values of the wrong length", dict(values=np.array([0.5, 0.25]))),
+                         ("new supports with values of the wrong length", dict(supports=B.copy(), values=np.array([0.5]))),
+                         ("fewer supports, stored values re-used", dict(supports=B[:2].copy())),
+                         ("append values only", dict(values=np.array([0.5]), append=True))):
+            kern = _kernel(d, kname)
+            ki = d.KernelInterpolation(kern, S.copy(), np.array([0.25, 0.5, 0.75]))
+            before = _plain_eval(d, kern, ki, probe)
+            sup0, val0 = np.array(ki.supports, copy=True), np.array(ki.values, copy=True)
+            r = call(ki.update, **kw)
+            ctx.count(("failed-update-kernel", kname, what))
+            if not isinstance(r, Raised):
+                continue
+            after = call(ki, probe)
+            same_attrs = ki.supports is not None and np.array_equal(ki.supports, sup0) and ki.values is not None and np.array_equal(ki.values, val0)
+            if isinstance(after, Raised) or not np.allclose(np.asarray(after, dtype=float), before, atol=1e-5) or not same_attrs:
+                ctx.fail("C14:KernelInterpolation.update:failed-update-changes-state",
+                         f"KernelInterpolation.update ({what}) raised {r!r}, but left supports / values / weights in a mixed state",
+                         {"failed_kernel_update": {"kernel": kname, "supports": S.tolist(), "update": {k: (v.tolist() if hasattr(v, 'tolist') else v) for k, v in kw.items()}},
+                          "raised": repr(r), "supports_and_values_unchanged": bool(same_attrs),
+                          "after": repr(after) if isinstance(after, Raised) else np.asarray(after, dtype=float).tolist(), "before": np.asarray(before).tolist()})
+
+
+def oracle_wrapper_kernel(ctx, d):
+    """HeterogeneousModel(KernelInterpolation(kernel), label image) on (H, W, 3) colour signals - the documented use of the wrapper
+    (MultichromaticTracerAnalysis): every pixel must get the interpolation of ITS label evaluated at its colour."""
+    nrng = np.random.default_rng(ctx.rng.randrange(2**31))
+    for trial in range(ctx.pick(6, 40)):
+        kname = "GaussianKernel" if trial % 2 == 0 else "LinearKernel"
+        L = int(nrng.integers(1, 4))
+        H, W = int(nrng.integers(2, 4)), int(nrng.integers(2, 5))
+        labs = np.concatenate([np.arange(L), nrng.integers(0, L, H * W - L)])
+        nrng.shuffle(labs)
+        label_values = np.sort(nrng.choice(40, L, replace=False))
+        lab = label_values[labs].reshape(H, W).astype(np.uint8)
+        sig = nrng.uniform(0, 3, (H, W, 3))
+        ctx.count(("wrapper-kernel", kname, L, H, W))
+        hm = call(d.HeterogeneousModel, d.KernelInterpolation(_kernel(d, kname)), d.Image(lab, dimensions=[1.0, 1.0], scalar=True))
+        if isinstance(hm, Raised):
+            ctx.fail("C14:HeterogeneousModel(KernelInterpolation).__init__:raises", repr(hm), {"labels": lab.tolist()})
+            continue
+        per = {}
+        bad = None
+        for l in np.unique(lab):
+            n = int(nrng.integers(1, 4))
+            S, V = gen_supports(nrng, kname, n), nrng.integers(0, 17, n) / 16
+            r = call(hm[l].update, supports=S.copy(), values=V.copy())
+            if isinstance(r, Raised):
+                bad = {"what": f"update of the interpolation of label {int(l)} raises {r!r}"}
+                break
+            per[int(l)] = hm[l]
+        out = None if bad else call(hm, sig.copy())
+        if bad is None and (isinstance(out, Raised) or np.asarray(out).shape != (H, W)):
+            bad = {"what": f"call on an (H, W, 3) signal: {out!r}"[:200]}
+        if bad is None:
+            for l, ki in per.items():
+                reg = lab == l
+                want = np.asarray(_plain_eval(d, ki.kernel, ki, sig[reg]), dtype=float)
+                if not np.allclose(np.asarray(out)[reg], want, atol=1e-5, rtol=1e-5):
+                    k = int(np.argmax(np.abs(np.asarray(out)[reg] - want)))
+                    bad = {"what": "a pixel does not carry the interpolation of its own label", "label": l, "observed": float(np.asarray(out)[reg][k]), "required": float(want[k])}
+                    break
+                others = [o for o in per if o != l]
+                if others and len({id(per[o]) for o in per}) != len(per):
+                    bad = {"what": "the per-label copies of the interpolation are one shared object"}
+        if bad:
+            ctx.fail("C14:HeterogeneousModel(KernelInterpolation).__call__:per-label", "label-wise kernel interpolation on a colour signal: " + bad["what"],
+                     {"labels": lab.tolist(), "kernel": kname, **bad})
 
 
 def oracle_kernel(ctx, d):
@@ -1509,10 +1706,13 @@ def run(ctx):
     oracle_models(ctx, d)
     oracle_threshold(ctx, d, thr)
     oracle_zero_updates(ctx, d)
+    oracle_failed_updates(ctx, d)
+    ctx.cov["update_paths_static"] = extract_update_paths()
     observe_image_inputs(ctx, d)
     oracle_label_sequences(ctx, d)
     oracle_kernel(ctx, d)
     oracle_kernel_sequences(ctx, d)
+    oracle_wrapper_kernel(ctx, d)
     kernel_state_correspondence(ctx, d)
     linear_kernel_correspondence(ctx, d)
     oracle_kernel_parameters(ctx, d)
@@ -1522,9 +1722,11 @@ def run(ctx):
         "np.clip / numpy broadcasting / boolean mask assignment semantics (tied by the exact correspondence on dyadic inputs)",
         "np.isclose default tolerances 1e-8 + 1e-5 (ScalingModel shortcut); inputs stay away from the threshold",
         "kernel interpolation: exp, np.linalg.inv, float32 casts and numba kernels are observed with tolerances, not modelled",
-        "states after an exception are outside the theorems (hypothesis: the sequence does not raise): e.g. KernelInterpolation.update(values=<wrong length>) "
-        "overwrites self.values before the matrix product raises, leaving values and interpolation_weights inconsistent (a C16-style question, not checked here)",
-        "label-wise thresholding and the HeterogeneousModel wrapper accept 2-D signals only (a (H,W,C) signal raises a broadcasting error); "
+        "states after a raising update are outside C14 (the theorems assume the call sequence does not raise; the correspondence stops at the first "
+        "error and compares its class). What the code leaves behind is only recorded: failed_update_observations, update_paths_static",
+        "signal shapes (decided from docs and usage): HeterogeneousModel is used on (H,W,3) colour signals with per-label KernelInterpolation "
+        "(MultichromaticTracerAnalysis) - checked by the oracle and modelled generically (wrapCallG); with element-wise sub-models it takes (H,W) only; "
+        "label-wise StaticThresholdModel documents scalar signals (img: np.ndarray, thresholds per label) - (H,W,C) raises and is outside the API; "
         "HeterogeneousLinearModel takes (H,W) and (H,W,C) signals with 2-D labels (both in the tie)",
     ]
     import shutil
